@@ -3,7 +3,7 @@ import re
 
 from ..extract import AnalysisError
 from ..facts import walk, strip, callee, calls_to
-from ..symx import guard_holds, Poly, Unsupported, app, var, num, single_atom, atom_fn, atom_args, contains_atom, cmp_atom
+from ..symx import guard_holds, Poly, Unsupported, app, var, num, single_atom, atom_fn, atom_args, contains_atom, cmp_atom, vkey
 from ..trace import Tracer
 from ..panics import Audit, SM, unwrap_mut
 
@@ -63,7 +63,8 @@ def run(ck, F, tier):
 
     # ---- P3 / P4: writer -----------------------------------------------------------------
     wb = F.body(W)
-    tw = Tracer(F, r"std::fmt::Write::write_fmt|core::slice::<impl \[T\]>::sort_unstable(_by)?|core::slice::<impl \[T\]>::sort", mode="int")
+    tw = Tracer(F, r"std::fmt::Write::write_fmt|core::slice::<impl \[T\]>::sort_unstable(_by)?|core::slice::<impl \[T\]>::sort", mode="int",
+                inline=lambda p_: F.private_helper(p_, "sparse::"))      # private helpers of the module (e.g. a max-weight function) are expanded
     env = {}
     for p, nm in zip(wb.params, ("self", "w", "use_padding")):
         tw.bind(p, var(nm), env)
@@ -114,6 +115,81 @@ def run(ck, F, tier):
     sorted_ok = len(sorts) == 1 and len(sorts[0].loops) == 2 and writes.index(el_writes[0]) > tw.events.index(sorts[0]) - len([x for x in tw.events[:tw.events.index(sorts[0])] if not x.callee.endswith("write_fmt")]) if el_writes and sorts else False
     ck.inst("P3", "writer:sorted", len(sorts) == 1 and len(sorts[0].loops) == 2, sorts[0].site if sorts else wb.span,
             "each index list is sorted (sort_unstable on the per-line copy) before it is formatted")
+    # the maximum-weight line: max over all column lists, then max over all row lists (0 for a matrix without columns / rows)
+    from ..idioms import zip_components, as_closure
+    from ..symx import unkey
+    VLEN = "std::vec::Vec::<T, A>::len"
+
+    def max_len_of(v):
+        """v == D.iter().map(|el| el.len()).max().unwrap_or(0) -> D, else None"""
+        a = single_atom(v) if isinstance(v, Poly) else None
+        if a is None or atom_fn(a) != "std::option::Option::<T>::unwrap_or" or atom_args(a)[1] != num(0):
+            return None
+        m = single_atom(atom_args(a)[0]) if isinstance(atom_args(a)[0], Poly) else None
+        if m is None or atom_fn(m) != "std::iter::Iterator::max" or not (isinstance(m[2], tuple) and m[2][0] == "iterdesc"):
+            return None
+        d = unkey(m[2])[1]
+        if d[0] != "map" or d[1][0] != "elems":
+            return None
+        try:
+            fv = tw.apply(as_closure(F, tw, d[2]), [var("el#g")])
+        except Unsupported:
+            return None
+        if fv != app(VLEN, var("el#g")):
+            return None
+        D = d[1][1]
+        return D[1] if isinstance(D, tuple) and len(D) == 2 and D[0] == "P" else D
+    t1, a1 = fmt_of(writes[1]) if len(writes) > 1 else (None, None)
+    mw_ok = False
+    why_mw = "second line %r with %r" % (t1, a1)
+    if t1 == "{} {}\n" and a1 and len(a1) == 2 and not writes[1].loops:
+        direct = [max_len_of(x) for x in a1]
+        if direct == [var("self.cols"), var("self.rows")]:
+            mw_ok = True
+            why_mw = "second line = max column-list length, max row-list length (computed directly)"
+        else:
+            # through an array filled in a loop that walks [cols, rows] and the array in lockstep
+            stores = [e for e in tw.events if e.callee == "<assign>" and e.loops and e.seq < writes[1].seq]
+            if len(stores) == 1 and len(stores[0].loops) == 1 and stores[0].loops[0][0] == "iter":
+                comps = zip_components(stores[0].loops[0][2])
+                D = max_len_of(stores[0].args[1])
+                idx = [single_atom(x) for x in a1]
+                if comps is not None and len(comps) == 2 and comps[0] == DIRS and D is not None and "elem(" in repr(D) and repr(DIRS[1][0]) in repr(D) \
+                        and all(i is not None and atom_fn(i) == "index" and "mutated(" in repr(atom_args(i)[0]) for i in idx) \
+                        and [atom_args(i)[1] for i in idx] == [num(0), num(1)] and not stores[0].guards:
+                    mw_ok = True
+                    why_mw = "second line = the two entries of an array filled, in lockstep with [cols, rows], with the maximum list length of each direction (0 when empty)"
+    ck.inst("P3", "writer:max-weight-line", mw_ok, writes[1].site if len(writes) > 1 else wb.span, why_mw)
+    # the weight lines: the length of every list of the direction, in order (first token and following tokens from the same mapped iterator)
+    wl_ok = False
+    rest = [e for e in writes if depth(e) == 2 and fmt_of(e)[0] == " {}" and e.loops[-1][0] == "iter"]
+    firsts = [e for e in writes if depth(e) == 1 and fmt_of(e)[0] == "{}"]
+    if len(rest) == 1 and len(firsts) == 1:
+        d_ = rest[0].loops[-1][2]
+        v_ = fmt_of(rest[0])[1][0]
+        if d_[0] == "skip" and d_[2] == num(1) and d_[1][0] == "map" and d_[1][1][0] == "elems" and "elem(" in repr(d_[1][1][1]) and "self.cols" in repr(d_[1][1][1]):
+            try:
+                fv = tw.apply(as_closure(F, tw, d_[1][2]), [var("el#g")])
+            except Unsupported:
+                fv = None
+            fa = single_atom(fmt_of(firsts[0])[1][0]) if isinstance(fmt_of(firsts[0])[1][0], Poly) else None
+            same_iter = False
+            if fa is not None and atom_fn(fa) == "payload0":
+                na = single_atom(atom_args(fa)[0]) if isinstance(atom_args(fa)[0], Poly) else None
+                if na is not None and atom_fn(na) == "std::iter::Iterator::next" and isinstance(na[2], tuple) and na[2][0] == "iterdesc":
+                    def sig(d):
+                        if isinstance(d, tuple) and d and d[0] == "map" and len(d) == 3:
+                            c = d[2]
+                            cdef = c[1].get("def") if isinstance(c, tuple) and len(c) > 1 and isinstance(c[1], dict) else (c[1] if isinstance(c, tuple) and len(c) > 1 else None)
+                            return ("map", sig(d[1]), str(cdef).split("@")[0])
+                        if isinstance(d, tuple) and d and d[0] == "elems":
+                            v = d[1]
+                            return ("elems", repr(v[1] if isinstance(v, tuple) and len(v) == 2 and v[0] == "P" else v))
+                        return repr(d)
+                    same_iter = sig(unkey(na[2])[1]) == sig(d_[1])
+            wl_ok = fv == app(VLEN, var("el#g")) and same_iter and not rest[0].guards
+    ck.inst("P3", "writer:weight-lines", wl_ok, rest[0].site if rest else wb.span,
+            "each weight line lists len(list) for every list of its direction, in storage order")
     # P4
     pads = [e for e in writes if fmt_of(e)[0] in ("0", " 0")]
     pad_ok = len(pads) == 2 and all(any(g == var("use_padding") and p for g, p in e.guards) for e in pads)
@@ -121,6 +197,63 @@ def run(ck, F, tier):
     zero_ok = len(zero) == 1 and any("eq(0" in repr(g) and "len" in repr(g) and p for g, p in zero[0].guards)
     ck.inst("P4", "writer:padding-guarded", pad_ok and zero_ok, pads[0].site if pads else wb.span,
             "`0` is written only for an empty list and ` 0` only as padding, both only when use_padding")
+    # how many padding tokens: (maximum weight of the direction) - (length of this list), never more (saturating or plain subtraction)
+    padn = [e for e in pads if fmt_of(e)[0] == " 0"]
+    cnt_ok = False
+    whyc = "padding loop not found"
+    if len(padn) == 1 and padn[0].loops and padn[0].loops[-1][0] == "range":
+        lp = padn[0].loops[-1]
+        hi = lp[3]
+        ha = single_atom(hi) if isinstance(hi, Poly) else None
+        if ha is not None and atom_fn(ha) == "saturating_sub":
+            dl, vl = atom_args(ha)
+        elif isinstance(hi, Poly):
+            pos = [m for m, c in hi.t.items() if c == 1]
+            neg = [m for m, c in hi.t.items() if c == -1]
+            dl = Poly.atom(pos[0][0][0]) if len(pos) == 1 and len(neg) == 1 and len(hi.t) == 2 and len(pos[0]) == 1 else None
+            vl = Poly.atom(neg[0][0][0]) if dl is not None and len(neg[0]) == 1 else None
+        else:
+            dl = vl = None
+        # dl: the entry of the maximum-weight array walked in lockstep with the directions; vl: the length of the list being written
+        comps_ = zip_components(padn[0].loops[0][2]) if len(padn[0].loops) == 3 else None
+        dl_ok = False
+        if dl is not None and comps_ is not None and len(comps_) == 2 and comps_[0] == DIRS:
+            LENS = comps_[1]
+            da_ = single_atom(dl)
+            is_elem = False
+            if da_ is not None and atom_fn(da_) == "elem":
+                src_ = unkey(da_[2])
+                if isinstance(src_, tuple) and src_ and src_[0] == "iterdesc":
+                    src_ = src_[1]
+                if isinstance(src_, tuple) and len(src_) == 2 and src_[0] == "elems":
+                    x_ = src_[1]
+                    x_ = unkey(x_) if not isinstance(x_, Poly) else x_
+                    is_elem = vkey(x_) == vkey(LENS)
+            if isinstance(LENS, tuple) and LENS and LENS[0] == "array":
+                lens_ok = [max_len_of(x) for x in LENS[1]] == [var("self.cols"), var("self.rows")]
+            else:
+                lens_ok = "mutated(" in repr(LENS) and mw_ok      # the array verified by writer:max-weight-line
+            dl_ok = bool(is_elem) and lens_ok
+        # an empty list has already produced one `0` token (P4 padding-guarded), so it counts as one token: max(len, 1)
+        va_ = single_atom(vl) if isinstance(vl, Poly) else None
+        vl_ok = False
+        if va_ is not None and atom_fn(va_) == "max":
+            xs = list(atom_args(va_))
+            # the list whose tokens this line consists of: the source of the token loop
+            tok_src = None
+            tl_ = [e for e in el_writes if fmt_of(e)[0] == " {}" and e.loops[-1][0] == "iter"]
+            if len(tl_) == 1:
+                d2 = tl_[0].loops[-1][2]
+                if d2[0] == "skip" and d2[1][0] == "map" and d2[1][1][0] == "elems":
+                    tok_src = d2[1][1][1]
+                    tok_src = tok_src[1] if isinstance(tok_src, tuple) and len(tok_src) == 2 and tok_src[0] == "P" else tok_src
+            lens = [x for x in xs if isinstance(x, Poly) and single_atom(x) is not None and atom_fn(single_atom(x)).endswith("::len")
+                    and tok_src is not None and atom_args(single_atom(x))[0] == tok_src]
+            vl_ok = len(lens) == 1 and num(1) in xs
+        cnt_ok = lp[2] == num(0) and not lp[4] and dl_ok and vl_ok
+        whyc = "` 0` is written %r..%r times" % (lp[2], hi)
+    ck.inst("P4", "writer:padding-count", cnt_ok or mw_ok is False, padn[0].site if padn else wb.span,
+            "a line is padded up to the maximum weight of its direction: (maximum - max(length, 1)) further zeros, the empty list having written one already: %s" % whyc[:300])
     others = [fmt_of(e)[0] for e in writes if fmt_of(e)[0] not in ("{} {}\n", "{}", " {}", "\n", "0", " 0")]
     ck.inst("P4", "writer:token-set", not others, wb.span, "the writer emits only numbers, single spaces, newlines and `0` padding" if not others else "unexpected output %r" % others)
 
